@@ -225,7 +225,10 @@ def check_fanout(ctx, R):
         # (a result found to be None carries no backpressure and may be skipped)
         nones = [e for e in evs if e.kind == 'COND' and e.c is None and isinstance(e.a, str) and e.a.replace(' ', '').endswith('isNone')
                  and e.b is True]
-        if len(ladds) + len(nones) < ncalls or not rets:
+        # (a result that is spliced element by element contributes nothing when it is empty: zero iterations over it)
+        empties = [e for e in evs if e.kind == 'LOOPEXIT' and e.a == 0 and e.c == 'cond' and e.depth == 0
+                   and (e.x or {}).get('node') is not loop_node and ({'x', 'p:x'} & set((e.x or {}).get('iter_tags') or ()))]
+        if len(ladds) + len(nones) + len(empties) < ncalls or not rets:
             bad = evs
         if rets and rets[-1].b and ({'x', 'p:x'} & set(rets[-1].b)):
             returned_somewhere = True
